@@ -35,15 +35,20 @@ SPEC = dict(
         "bindAvail/smAvail/csiAvail are not reset per connection by the code; they are overwritten by the next features element before use "
         "(read by inspection and confirmed by the correspondence runs, not a theorem)",
         "'next attempt succeeds' is proved for three conforming flows (SASL+bind, STARTTLS+SASL+bind, SASL2+bind2+SM) after ANY history; the "
-        "resumption flows are covered by the correspondence/oracle runs only",
-        "'connected at most once and only when done' is proved for every cut point of the SASL+bind flow after ANY history; for the other flows "
-        "it is checked by the oracle on the implementation",
+        "resumption flows and SCRAM are covered by the correspondence/oracle runs only",
+        "'connected at most once per connection' is proved for every history under the single conformance hypothesis 'the server sends no "
+        "stream features into an established session' (without it the property is false: features sent twice open the session twice, the "
+        "Q_ASSERT guarding this is compiled out in release builds); 'connected only when done' needs no hypothesis",
+        "'isConnected() implies authenticated' is only shown to FAIL (redirect inside a session); the positive statement under 'no "
+        "see-other-host during a session and the server requires authentication' is not proved (checked by the oracle on conforming scripts)",
     ],
     level_text="Theorems quantified over every history (all event scripts of any length): the cut leaves disconnected/no session/not "
                "authenticated with exactly one disconnected signal; outstanding requests are finished unless resumable; every negotiation "
                "field except bind2Bound is back to its initial value after cut+reconnect; three conforming flows reach connected after any "
-               "history; connected is reported exactly once and only by the last element of the SASL+bind flow at every cut point. Five "
-               "machine-checked defect theorems with witnesses replayed on the real client.",
+               "history; for every history and every event connected is reported at most once per step and only by a step that leaves the "
+               "listener idle, the session flag set and the socket connected; for every history of a server that sends no features into a "
+               "session no two connected are reported without a disconnected (socket loss) in between; every cut point of the SASL+bind "
+               "flow reports nothing until the last element. Five machine-checked defect theorems with witnesses replayed on the real client.",
     level_note="Proved about the hand-written model; model-to-code tie is differential (every policy x every cut point, pairs and triples "
                "of attempts). The property does NOT hold in four places (recorded findings with fix diffs): legacy login never completes, "
                "bind2Bound leaks across attempts, see-other-host inside a session keeps the session flag, see-other-host over TLS hangs.",
